@@ -3,7 +3,8 @@ import BigtoolsModel.FiltersGen
 import BigtoolsModel.ZoomLevels
 import BigtoolsModel.Tiler3
 import BigtoolsModel.ZoomQueryBytes
-import BigtoolsModel.AtomsGen
+import BigtoolsModel.AtomsTiler
+import BigtoolsModel.AtomsZL
 import BigtoolsModel.OverlapsGen
 /-! # C07 — bigWig zoom levels are faithful reductions of the data
 
